@@ -188,8 +188,11 @@ func (w *World) LoadRuleSetYAML(source string, yaml string) error {
 	return w.Processor.OnCreated(rs)
 }
 
-func ParseRuleSet(source, yaml string) (*rconfig.RuleSet, error) {
-	rs, err := rconfig.ParseRules("application/yaml", strings.NewReader(yaml), false)
+func ParseRuleSet(source, yaml string) (*rconfig.RuleSet, error) { return ParseRuleSetEnv(source, yaml, false) }
+
+// ParseRuleSetEnv parses a rule set the way the file_system provider does with env_vars_enabled set accordingly.
+func ParseRuleSetEnv(source, yaml string, envVars bool) (*rconfig.RuleSet, error) {
+	rs, err := rconfig.ParseRules("application/yaml", strings.NewReader(yaml), envVars)
 	if err != nil {
 		return nil, err
 	}
